@@ -15,10 +15,21 @@ Dims23 == <<2, 3>>
 Dims21 == <<2, 1>>
 Dims32 == <<3, 2>>
 SameT(x, y) == x.dom = y.dom /\ x.cod = y.cod /\ x.a = y.a
+\* what a variant must evaluate to: a rewritten form of d denotes d; a formal sum the entrywise sum; a bubble
+\* the entrywise image under its function; a spider its delta tensor
+Sq(v) == GMul(v, v)
+OneMinus(v) == GAdd(<<1, 0>>, <<0 - v[1], 0 - v[2]>>)
+Expected(t, v) ==
+  CASE v.kind = "sum" -> AddT(EvalD(t.d), EvalD(v.other))
+    [] v.kind = "bubble_sq" -> MapT(EvalD(t.d), Sq)
+    [] v.kind = "bubble_1m" -> MapT(EvalD(t.d), OneMinus)
+    [] v.kind = "spider" -> SpiderT(v.n, v.m, v.dim)
+    [] v.kind = "spider_fusion" -> SpiderT(v.n, v.m, v.dim)
+    [] OTHER -> EvalD(t.d)
 J09(t) ==
   LET n == Len(t.d.boxes)
       badp == { k \in 0..n : ~SameT(t.prefixes[k + 1], EvalPrefix(t.d, k)) }
-      badv == { v \in 1..Len(t.variants) : t.variants[v].exc # "" \/ ~SameT(t.variants[v].val, EvalD(t.d)) } IN
+      badv == { v \in 1..Len(t.variants) : t.variants[v].exc # "" \/ ~SameT(t.variants[v].val, Expected(t, t.variants[v])) } IN
   IF t.pexc # "" THEN <<"evaluation-raised", 0>>
   ELSE IF Len(t.prefixes) # n + 1 THEN <<"missing-prefix", 0>>
   ELSE IF badp # {} THEN <<"prefix-is-not-the-layerwise-composite", CHOOSE k \in badp : \A j \in badp : k <= j>>
@@ -26,6 +37,9 @@ J09(t) ==
        <<IF t.variants[v].exc # "" THEN "variant-raised"
          ELSE IF t.variants[v].kind = "interchange" THEN "evaluation-not-invariant-under-interchange"
          ELSE IF t.variants[v].kind = "normal_form" THEN "evaluation-not-invariant-under-normalisation"
+         ELSE IF t.variants[v].kind = "sum" THEN "sum-is-not-the-entrywise-sum"
+         ELSE IF t.variants[v].kind \in {"bubble_sq", "bubble_1m"} THEN "bubble-is-not-the-entrywise-image"
+         ELSE IF t.variants[v].kind \in {"spider", "spider_fusion"} THEN "spider-is-not-its-delta-tensor"
          ELSE "tensor-diagram-eval-differs-from-functor", v>>
   ELSE <<"ok", 0>>
 Verdicts == LET TR == ndJsonDeserialize(IOEnv.TRACE_FILE) IN [l \in 1..Len(TR) |-> [v |-> J09(TR[l])]]
